@@ -355,15 +355,26 @@ func (w *twkbWriter) writeMultiPoint(mp MultiPoint) error {
 	w.writeInitialHeaders()
 
 	numPoints := mp.NumPoints()
-	w.writeUnsignedVarint(uint64(numPoints))
-
-	if err := w.writeIDList(numPoints); err != nil {
-		return err
+	if w.hasIDs && numPoints != len(w.idList) {
+		return fmt.Errorf("unexpected ID list length %d, expected %d", len(w.idList), numPoints)
 	}
 
+	// TWKB has no way to represent an empty Point inside a non-empty
+	// MultiPoint, so empty Points are omitted (along with their IDs).
+	nonEmpty := make([]int, 0, numPoints)
 	for i := 0; i < numPoints; i++ {
-		pt := mp.PointN(i)
-		w.writePointCoords(pt)
+		if !mp.PointN(i).IsEmpty() {
+			nonEmpty = append(nonEmpty, i)
+		}
+	}
+	w.writeUnsignedVarint(uint64(len(nonEmpty)))
+	if w.hasIDs {
+		for _, i := range nonEmpty {
+			w.writeSignedVarint(w.idList[i])
+		}
+	}
+	for _, i := range nonEmpty {
+		w.writePointCoords(mp.PointN(i))
 	}
 	return nil
 }
